@@ -51,6 +51,11 @@ chk('C18', 'TLA+ model of peer writes / cut / receiver rounds over the Tokenizer
     'AF_UNIX stream socketpair stands for the TCP connection; EOF wait bounded (1 s); server sub-check skipped (reported) if loopback bind fails.',
     'DESIGN.md 5/C18')
 
+chk('C09', 'TLA+ definition of the SMF meta event layouts and VLQ (MetaWire, Vlq) enumerated by TLC over the documented attribute domains; every row replayed into MetaMessage / from_bytes / a track read; random messages trace-validated by TLC',
+    'TLC enumerates the documented domains (quick: 1 038 sequence numbers, 10 byte values, all 256 denominator exponents, 30 keys, tempo/smpte limits, text/data/unknown-meta payloads of 0, 1, 127, 128, 129 bytes; thorough: all 65 536 sequence numbers, all 256 byte values, payloads up to 16 384 bytes), checks MetaRoundTrip (FF type minimal-VLQ-length payload, all bytes, decode(encode)=id) and emits accept rows and limit probes; each is replayed on the real classes (constructor / setattr / copy verdict, bytes(), from_bytes, a read through a one-event track with a non-zero delta). Ill-typed values and a 1 000 000-byte text are driver-level cases; 600 (thorough 3 000) random messages are logged from the real codec and validated by TLC (MetaTrace).',
+    'Text is modelled as its encoded bytes and instantiated with latin1; known finding D6 (smpte hours 32..255) is listed in known_findings.json.',
+    'DESIGN.md 5/C09')
+
 
 def build(not_applicable):
     checks = []
